@@ -42,10 +42,19 @@ fn shape_c06(p: &mut Profile, r: &mut Rng) {
     p.w_convenience += 2;
 }
 
+/// a call that the model predicts to succeed and that leaves a structurally
+/// invalid forest has not had the model's effect either
+fn claim_c05(v: &Violation, op: &crate::ops::Op, _pre: &crate::world::World, info: &crate::engine::StepInfo) -> Option<Violation> {
+    if v.property == "C04" && info.outcome == "ok" && info.pred == "done" && op.is_manipulation() {
+        return Some(Violation::new("C05", "model-mismatch-structure", format!("after {}: {}", op.name(), v.msg)));
+    }
+    None
+}
+
 impl ForestEngine {
     pub fn c04() -> Self {
         ForestEngine {
-            cfg: ForestCfg { property: "C04", extra: None, shape: shape_c04, enumerate_every: 0 },
+            cfg: ForestCfg { property: "C04", extra: None, shape: shape_c04, enumerate_every: 0, claim: None, fork_check: false },
             level: "exploration",
             quick_runs: 30_000,
             thorough_runs: 1_500_000,
@@ -54,7 +63,7 @@ impl ForestEngine {
     }
     pub fn c05() -> Self {
         ForestEngine {
-            cfg: ForestCfg { property: "C05", extra: None, shape: shape_c05, enumerate_every: 400 },
+            cfg: ForestCfg { property: "C05", extra: None, shape: shape_c05, enumerate_every: 400, claim: Some(claim_c05), fork_check: false },
             level: "exploration",
             quick_runs: 30_000,
             thorough_runs: 1_500_000,
@@ -63,7 +72,7 @@ impl ForestEngine {
     }
     pub fn c06() -> Self {
         ForestEngine {
-            cfg: ForestCfg { property: "C06", extra: None, shape: shape_c06, enumerate_every: 150 },
+            cfg: ForestCfg { property: "C06", extra: None, shape: shape_c06, enumerate_every: 150, claim: None, fork_check: false },
             level: "fault_enumeration",
             quick_runs: 20_000,
             thorough_runs: 1_000_000,
